@@ -735,3 +735,89 @@ def check_angular_momentum(run, tree):
                 run.unresolved(construct, fi.where(), "cannot normalise: %s" % e)
             except ERR as e:
                 run.unresolved(construct, fi.where(), "cannot fold: %s" % e)
+
+
+# =============================================================================== perpendicular_vector for ALL inputs (not only generic points)
+def check_perpendicular(run, tree):
+    """per branch (z == 0 / z != 0): result . input == 0 as a rational identity, and the result vanishes for no non-zero input of the
+    branch (a non-zero constant component, or a rank condition on the linear components)"""
+    from fractions import Fraction as F
+    PV = "core/vector.py::perpendicular_vector"
+    fi = tree.func(PV)
+    run.analysed(fi)
+    hk = hooks()
+    x, y, z = R(Poly.sym("x")), R(Poly.sym("y")), R(Poly.sym("z"))
+
+    def rank(rows):
+        rows = [list(map(F, r)) for r in rows]
+        rk = 0
+        for col in range(3):
+            piv = next((i for i in range(rk, len(rows)) if rows[i][col] != 0), None)
+            if piv is None:
+                continue
+            rows[rk], rows[piv] = rows[piv], rows[rk]
+            for i in range(len(rows)):
+                if i != rk and rows[i][col] != 0:
+                    f = rows[i][col] / rows[rk][col]
+                    rows[i] = [a - f * b for a, b in zip(rows[i], rows[rk])]
+            rk += 1
+        return rk
+
+    def kernel(rows):
+        import itertools as it
+        for cand in it.product(range(-3, 4), repeat=3):
+            if any(cand) and all(sum(F(a) * b for a, b in zip(r, cand)) == 0 for r in rows):
+                return cand
+        return None
+    for label, comps, zero_z in (("z == 0", [Poly.sym("x"), Poly.sym("y"), 0], True), ("z != 0", [Poly.sym("x"), Poly.sym("y"), Poly.sym("z")], False)):
+        construct = "%s[%s]" % (PV, label)
+        try:
+            SNum.assumptions = []
+            v = vec(tree, hk, comps, name="n")
+            try:
+                out = ModelEval(tree, fi, {}, hk).invoke(fi, [v], {}, None)
+            except (Raised, ProgramRaised) as e:
+                run.violated(construct, fi.where(), "raises %s" % e, "VectorBasis(n=...) for a bare normal")
+                continue
+            if not (isinstance(out, PyObj) and out._cls.qual == VECTOR_Q):
+                run.violated(construct, fi.where(), "returns %r" % (out,), "VectorBasis(n=...) for a bare normal")
+                continue
+            c = comps_of(tree, hk, out)
+            inp = [R(t) for t in comps]
+            d = dot(c, inp)
+            run.ob(construct + "::orthogonal", is_zero(d), fi.where(), "result (%r, %r, %r); result . input = %r" % (c[0], c[1], c[2], reduce_rat(d)),
+                   "u is not perpendicular to the requested normal: the image plane is tilted")
+            num = [ci.n for ci in c]
+            const_nonzero = any(p.is_const() and p.const_value() != 0 and ci.d.is_const() for p, ci in zip(num, c))
+            ok_nv, detail = const_nonzero, "a component is a non-zero constant" if const_nonzero else ""
+            if not const_nonzero:
+                rows, linear = [], True
+                for p in num:
+                    row = []
+                    for s_ in ("x", "y", "z"):
+                        co = p.coeff_of(s_, 1)
+                        if not co.is_const():
+                            linear = False
+                            break
+                        row.append(co.const_value())
+                    if not linear:
+                        break
+                    rest = p - sum((Poly.sym(s_) * rw for s_, rw in zip(("x", "y", "z"), row)), Poly())
+                    if rest.t:
+                        linear = False
+                        break
+                    rows.append(row)
+                if not linear:
+                    run.unresolved(construct + "::non-vanishing", fi.where(), "components are not linear: cannot decide the zero set")
+                    continue
+                if zero_z:
+                    rows.append([F(0), F(0), F(1)])
+                if rank(rows) == 3:
+                    ok_nv, detail = True, "the components vanish only for the zero vector"
+                elif not zero_z and rank(rows + [[F(0), F(0), F(1)]]) == 3:
+                    ok_nv, detail = True, "the components vanish only where z == 0, excluded by the branch condition"
+                else:
+                    ok_nv, detail = False, "the result is the zero vector for the non-zero input (x,y,z) = %s" % (kernel(rows),)
+            run.ob(construct + "::non-vanishing", ok_nv, fi.where(), detail, "a normal such as (1,-1,0): u = v = 0, every pixel samples the origin")
+        except ERR as e:
+            run.unresolved(construct, fi.where(), "cannot fold: %s" % e)
